@@ -29,6 +29,8 @@ ASSUMPTIONS = [
     "weaker readings (DESIGN C19): a recording/clamp/trainable naming a state of a channel deleted *afterwards* refers to an existing row; "
     "integrate raising on such a state is a refusal; num_trainable_params (print-only counter) is not a table",
     "integrate is called with default params (simulates the tables, not the trainables)",
+    "frame conditions I8/I10/I11 read 'tables stay consistent with the editing history' as: delete_* / delete_channel through a view and "
+    "connect change only the rows they denote (rows outside the view, and the synapse rows that existed before a connect, keep every value)",
 ]
 SIG_INIT = False
 EXPAND_BROKEN_STATES = False
@@ -335,6 +337,9 @@ def invariants(m, hist, parent_hash=None, hash_=None, item=None):
     # I10 delete_channel through a view leaves every row outside the view untouched
     if hist and hist[-1] in CONFINED_CH and item is not None:
         errs += _confined_channel_delete(hist[-1], item["init"], hist[:-1], m)
+    # I11 connect appends rows: the rows that existed before keep everything that was set on them
+    if hist and "connect" in hist[-1] and item is not None:
+        errs += _connect_frame(item["init"], hist[:-1], m)
     # I7 deletions undo their insertions
     if len(hist) >= 2 and UNDOES.get(hist[-1]) == hist[-2] and item is not None:
         gp = _grandparent_hash(item["init"], hist[:-2])
@@ -393,6 +398,32 @@ def _confined_channel_delete(op, init, parent_hist, m):
         if not np.array_equal(before, after, equal_nan=True):
             bad = [outside[j] for j in np.where(~((before == after) | (np.isnan(before) & np.isnan(after))))[0]]
             errs.append(("I10_confined_channel_delete", "rows_outside_view_changed", f"{col} (deleting {name}) changed on rows {bad} outside the view {sorted(rows)}"))
+    return errs
+
+
+def _connect_frame(init, parent_hist, m):
+    import sys
+
+    mod = sys.modules[__name__]
+    parent = explorer.replay(mod, init, parent_hist)
+    errs = []
+    for what, before, after in (("edges", parent.edges, m.edges.iloc[: len(parent.edges)]), ("nodes", parent.nodes, m.nodes)):
+        if len(after) != len(before):
+            errs.append(("I11_connect_frame", f"{what}_rows_lost", f"{len(before)} -> {len(after)}"))
+            continue
+        for col in before.columns:
+            if col == "controlled_by_param":
+                continue
+            if col not in after.columns:
+                errs.append(("I11_connect_frame", f"{what}_column_lost", col))
+                continue
+            a, b = before[col].to_numpy(), after[col].to_numpy()
+            try:
+                same = np.array_equal(a.astype(float), b.astype(float), equal_nan=True)
+            except (TypeError, ValueError):
+                same = list(a) == list(b)
+            if not same:
+                errs.append(("I11_connect_frame", f"existing_{what}_rows_changed", f"{col}: {a.tolist()} -> {b.tolist()}"))
     return errs
 
 
